@@ -18,6 +18,9 @@ R6 access-info   LFRicBuiltIn.reference_accesses reports every argument with
                  its metadata access unchanged (a gh_sum scalar stays a SUM:
                  the OpenMP data-sharing inference would make a WRITE scalar
                  private and lose the reduction).
+R8 owned-dofs     Dynamo0p3RedundantComputationTrans refuses a loop that
+                 contains a reduction (a sum over halo DoFs would count
+                 shared DoFs more than once).
 R7 fused-reductions  LFRicLoopFuseTrans.validate looks for reductions in all
                  kernels of both loops (a loop may already be a fused one).
 """
@@ -747,6 +750,25 @@ def check_fused_reductions(idx, run):
             "contains": [("get_valid_reduction_modes()",
                           "all reduction modes count")],
         }})
+    check_table(idx, run, "C20.R8", {
+        ("Dynamo0p3RedundantComputationTrans", "validate"): {
+            "consults": [((".is_reduction", ".reduction_arg",
+                           "get_valid_reduction_modes()"),
+                          "looking for reductions in the loop's kernels")],
+        }})
+    cls = idx.get_class("Dynamo0p3RedundantComputationTrans")
+    func = cls.methods["validate"]
+    guarded = any(
+        isinstance(st, ast.If) and any(f in ast.unparse(st.test) for f in (
+            "is_reduction", "reduction_arg", "red_args")) and
+        any(isinstance(b, ast.Raise) for b in ast.walk(st))
+        for st in ast.walk(func))
+    run.check("C20.R8", guarded,
+              "Dynamo0p3RedundantComputationTrans.validate",
+              "a reduction in the loop is refused",
+              "finding a reduction no longer leads to a refusal: the sum "
+              "would run over halo DoFs and the global sum would count "
+              "them again", loc(cls.module, func))
 
 
 def check(idx, run):
